@@ -195,6 +195,7 @@ def stepRO (_ : Unit) (line : String) : Unit × String :=
   match tokens line with
   | ["load", _] | ["loadbind", _] | ["mods", _] | ["arena", _] | ["arena", _, _] | ["drop"] => ((), "ok")
   | ["expect-valid"] => ((), "valid")
+  | ["xmlexport", _] => ((), "ok")     -- process-level choice of the XML export back end (first line of a harness process)
   | ["observe", w, d, a] =>
     match parseState d a with
     | none => bad
